@@ -140,6 +140,19 @@ fn check_point(ps: &gen::PointSpec, st: &mut Stats) -> Result<(), String> {
             p.lon, p.lat, id, c.face, c.res, best.0
         ));
     }
+    // resolution 1 refines resolution 0 exactly (quintants nest in their face): away from a tie the
+    // quintant found for the point belongs to the face found for it
+    let id1 = a5::lonlat_to_cell(api::lonlat(p.lon, p.lat), 1).map_err(|e| format!("lonlat_to_cell(({}, {}), 1) failed: {}", p.lon, p.lat, e))?;
+    let c1 = codec::decode(id1).ok_or_else(|| format!("lonlat_to_cell(.., 1) returned non-canonical {:#x}", id1))?;
+    if c1.res != 1 || !allowed.contains(&(c1.face as usize)) {
+        return Err(format!("lonlat_to_cell(({}, {}), 1) = {:#x} (face {}, res {}), nearest face is {}", p.lon, p.lat, id1, c1.face, c1.res, best.0));
+    }
+    if !tie {
+        let par = a5::cell_to_parent(id1, Some(0)).map_err(|e| format!("cell_to_parent failed: {}", e))?;
+        if par != id {
+            return Err(format!("({}, {}): the resolution-1 cell {:#x} is not a child of the resolution-0 cell {:#x}", p.lon, p.lat, id1, id));
+        }
+    }
     let gap = ang(v, fr.centres[second.0]) - ang(v, fr.centres[best.0]);
     let nt = gap < 1e-3;
     if nt {
